@@ -100,7 +100,7 @@ func (node *GroupBy) Typecheck(ctx context.Context, env physical.Environment, lo
 		key[i] = node.key[i].Typecheck(ctx, env.WithRecordSchema(source.Schema), logicalEnv.WithRecordUniqueVariableNames(mapping))
 		if source.Schema.TimeField != -1 &&
 			key[i].ExpressionType == physical.ExpressionTypeVariable &&
-			physical.VariableNameMatchesField(key[i].Variable.Name, source.Schema.Fields[source.Schema.TimeField].Name) {
+			key[i].Variable.Name == source.Schema.Fields[source.Schema.TimeField].Name {
 
 			keyEventTimeIndex = i
 		}
